@@ -111,6 +111,9 @@ def jobs(seed=0):
     J += rot_vec_jobs(seed)
     J += big_jobs(seed)
     J += dft_jobs(seed)
+    # vmp_jobs(seed) (contracts/vec_vmp.c) is NOT registered: with the matrix strides nrows*ncols*nn symbolic in nn most runs
+    # exhaust the solver's memory or time, and dfcc rejects the loop contract on the block loop that contains the column
+    # loop; the VMP wrappers are not covered (DESIGN 5/C11).
     NQ4 = [(1, 4)]
     for n, (rs, as_) in enumerate(NQ4):
         sp = stride_pick(seed, 2, n)
@@ -274,4 +277,42 @@ def dft_jobs(seed=0):
                  harness="vec_dft.c", entry="h_tmp_bytes", no_dfcc=True, defines={"RS": 1, "AS": 1}, cbmc_flags=["--unwind", "3", "--object-bits", "10"],
                  functions=["fft64_znx_small_single_product_tmp_bytes", "fft64_vec_znx_idft_tmp_bytes", "vec_znx_normalize_base2k_tmp_bytes_ref", "fft64_bytes_of_vec_znx_dft",
                             "fft64_bytes_of_vec_znx_big", "fft64_bytes_of_svp_ppol"], timeout=300))
+    return J
+
+
+def vmp_jobs(seed=0):
+    J = []
+    SRC_ = ["arithmetic/vector_matrix_product.c"]
+    REPL = [("reim4_extract_1blk_from_contiguous_reim_ref", "reim4_extract_1blk_from_contiguous_reim_ref__c"),
+            ("reim4_vec_mat2cols_product_ref", "reim4_vec_mat2cols_product_ref__c"), ("reim4_vec_mat1col_product_ref", "reim4_vec_mat1col_product_ref__c"),
+            ("reim4_save_1blk_to_reim_ref", "reim4_save_1blk_to_reim_ref__c"), ("reim4_extract_1blk_from_reim_ref", "reim4_extract_1blk_from_reim_ref__c"),
+            ("reim_fftvec_mul", "reim_fftvec_mul__c"), ("reim_fftvec_addmul", "reim_fftvec_addmul__c"),
+            ("reim_from_znx64", "reim_from_znx64__c"), ("reim_fft", "reim_fft__c")]
+    shapes = [(2, 2, 2, 2), (1, 2, 2, 3), (3, 1, 2, 2), (2, 3, 2, 1), (0, 1, 1, 1), (1, 0, 1, 1), (3, 2, 1, 2), (2, 2, 3, 3)]
+    for (rs, as_, nr, nc) in shapes:
+        for nbig in (1, 0):
+            d = {"RS": rs, "AS": as_, "NR": nr, "NC": nc, "NBIG": nbig}
+            loops = {"fft64_vmp_apply_dft_to_dft_ref": {"count": 5, "loops": [
+                {"id": 1, "assigns": "blk_i, __CPROVER_object_upto(res, %d * nn * 8), __CPROVER_object_upto(tmp_space, %d)" % (rs, 128 + 64 * min(nr, as_)),
+                 "invariants": "blk_i <= m / 4", "decreases": "m / 4 - blk_i"}]}} if nbig else {}
+            J.append(Job(name="vmp.apply_dft_to_dft_ref.r%da%d.m%dx%d.%s" % (rs, as_, nr, nc, "N8" if nbig else "N4"), props=["C11", "C18", "C15", "C12"], shape="S3",
+                         sources=SRC_, harness="vec_vmp.c", entry="h_vmp_apply_dft_to_dft", enforce=[("fft64_vmp_apply_dft_to_dft_ref", "vmp_apply_dft_to_dft__c")],
+                         replace=list(REPL), defines=d, loops=loops,
+                         cbmc_flags=["--unwind", str(max(rs, as_, nr, nc) + 3), "--unwinding-assertions", "--object-bits", "10"],
+                         functions=["fft64_vmp_apply_dft_to_dft_ref"], timeout=900,
+                         bound_note="shape (res,a,nrows,ncols)=(%d,%d,%d,%d), %s; callees replaced by ASSUMED frame contracts" % (rs, as_, nr, nc, "every N >= 8" if nbig else "N in {2,4}")))
+    for (nr, nc) in [(1, 1), (2, 2), (2, 3), (3, 1)]:
+        for nbig in (1, 0):
+            d = {"RS": 1, "AS": 1, "NR": nr, "NC": nc, "NBIG": nbig}
+            loops = {"fft64_vmp_prepare_contiguous_ref": {"count": 5, "loops": [
+                {"id": 0, "assigns": "blk_i, __CPROVER_object_upto(pmat, %d * nn * 8)" % (nr * nc), "invariants": "blk_i <= m / 4", "decreases": "m / 4 - blk_i"}]}} if nbig else {}
+            J.append(Job(name="vmp.prepare_contiguous_ref.m%dx%d.%s" % (nr, nc, "N8" if nbig else "N4"), props=["C11", "C18", "C12"], shape="S3",
+                         sources=SRC_, harness="vec_vmp.c", entry="h_vmp_prepare", enforce=[("fft64_vmp_prepare_contiguous_ref", "vmp_prepare_contiguous__c")],
+                         replace=list(REPL), defines=d, loops=loops,
+                         cbmc_flags=["--unwind", str(max(nr, nc) + 3), "--unwinding-assertions", "--object-bits", "10"],
+                         functions=["fft64_vmp_prepare_contiguous_ref"], timeout=900,
+                         bound_note="matrix %dx%d, %s" % (nr, nc, "every N >= 8" if nbig else "N in {2,4}")))
+    J.append(Job(name="vmp.tmp_bytes_formulas", props=["C11"], shape="S2", sources=SRC_ + ["arithmetic/vec_znx_dft.c"], harness="vec_vmp.c", entry="h_vmp_tmp_bytes", no_dfcc=True,
+                 defines={"RS": 1, "AS": 1, "NR": 1, "NC": 1, "NBIG": 1}, cbmc_flags=["--unwind", "3", "--object-bits", "10"],
+                 functions=["fft64_vmp_apply_dft_to_dft_tmp_bytes", "fft64_vmp_apply_dft_tmp_bytes", "fft64_vmp_prepare_contiguous_tmp_bytes"], timeout=300))
     return J
